@@ -10,7 +10,10 @@ tot = sum(r['executions'] for r in st['results'].values()); div = sum(r['diverge
 out.append('%d profiles, %d seeds each, %d executions in fresh processes at GOMAXPROCS/workers 1/1, 4/4, 16/16, 2/16; **%d divergences** (compared: hash of the full event log and step count). ' % (len(st['results']), next(iter(st['results'].values()))['seeds'], tot, div))
 out.append('The first run of this self-test over all profiles (before the last two fixes) showed 30 % divergent seeds in five profiles: the generators drew from the PRNG while ranging over the per-server plan *map* (so "one seed" was not one program - replay files were unaffected, they store the program), and a few seeds in which a timer of the system expired at exactly the instant the driver woke up (fixed by `sleepPast` and odd offsets on all configured durations). Both were harness defects; no verdict depended on them, but they are the reason the self-test exists.')
 out.append('')
-out.append('**Seeded changes** (%d kept, all confirmed against the current HEAD, all caught by the *quick* check of their property; 3 retired, see `seeded/_retired`):' % len(glob.glob(V + '/seeded/C*')))
+_metas = [json.load(open(d + '/meta.json')) for d in sorted(glob.glob(V + '/seeded/C*'))]
+_caught = sum(1 for m in _metas if (m.get('detection', {}).get('%s quick' % m['property']) or {}).get('exit') == 1)
+_conf = sum(1 for m in _metas if m.get('confirmed', {}).get('ok'))
+out.append('**Seeded changes** (%d kept, %d confirmed against the HEAD they are recorded for, %d caught by the *quick* check of their property, %d missed by it - see the rows marked MISSED and section 8.2; 5 retired, see `seeded/_retired`):' % (len(_metas), _conf, _caught, len(_metas) - _caught))
 out.append('')
 out.append('| id | change (abridged) | rules that fired in the quick check | s |')
 out.append('|---|---|---|---|')
@@ -20,7 +23,12 @@ for d in sorted(glob.glob(V + '/seeded/C*')):
     rules = sorted(set(r.split()[0][5:] for r in v.get('first', []) if isinstance(r, str) and r.startswith('rule=')))
     others = sorted(k.split()[0] for k in det if k != own and det[k]['exit'] == 1)
     s = m['summary']; s = s if len(s) <= 170 else s[:167] + '...'
-    caught = 'caught' if v.get('exit') == 1 else 'MISSED'
+    caught = 'caught' if v.get('exit') == 1 else 'MISSED by quick'
+    if v.get('exit') != 1:
+        ds = (m.get('detection_scratch') or {}).get('%s thorough' % m['property'])
+        if ds:
+            caught += ' (thorough, scratch worktree: %s, %d s)' % ('caught' if ds.get('exit') == 1 else 'missed', ds.get('seconds', 0))
+            rules = sorted(set(r.split()[0][5:] for r in ds.get('first', []) if isinstance(r, str) and r.startswith('rule=')))
     out.append('| %s | %s | %s: %s%s | %s |' % (i, s.replace('|', '/'), caught, ', '.join(rules), (' (also ' + ', '.join(others) + ')') if others else '', v.get('seconds', '?')))
 out.append('')
 rp = V + '/refactorings/results.json'
